@@ -36,6 +36,7 @@ struct Dec {
   std::vector<alignment_iter_t *> openAlignIters;
   int extraRefs = 0;
   std::vector<alignment_t *> retainedAlignments;
+  bool hostile = false; // dictionary with hostile spellings loaded
   bool french = false; // reinitialised with the French model: the English grammar / word menus do not apply
   bool broken = false; // a reinit failed: only another reinit or free is meaningful
 };
@@ -57,7 +58,7 @@ const char *FSGS[] = {
     "FSG_BEGIN c\nNUM_STATES 2\nSTART_STATE 0\nFINAL_STATE 1\nT 0 1 1.0\nFSG_END\n",
     "FSG_BEGIN d\nNUM_STATES 2\nSTART_STATE 0\nFINAL_STATE 1\nT 0 1 1.0 zzzunknownword\nFSG_END\n", // refused at install
 };
-const char *TEXTS[] = {"go forward ten meters", "go", "", " ", "go zzzunknownword", "ten\tmeters\n", "a a a a a a a a", "go m\xc3\xa8tres w\"q"};
+const char *TEXTS[] = {"go forward ten meters", "go", "", " ", "go zzzunknownword", "ten\tmeters\n", "a a a a a a a a", "go caf\xc3\xa9 ten"};
 // 1 = must be accepted, 0 = must be refused, 2 = the documentation does not say (empty word sequence) or it
 // depends on the history (words that an earlier call may have added)
 const int TEXT_OK[] = {1, 1, 2, 2, 0, 1, 1, 2};
@@ -222,10 +223,14 @@ Verdict propC09(Choices &c, Ctx &ctx) {
     if (!D[i].d) {
       DecCfg k;
       k.compallsen = c.coin(30);
+      // the same dictionary plus spellings with quotes, backslashes, control and non-ASCII bytes
+      bool hostile = c.coin(40);
+      if (hostile) k.dict = verifDir() + "/data/hostile.dic";
       D[i].d = makeDecoder(k);
       D[i].utt = Dec::IDLE;
       D[i].hasGrammar = false;
-      h << " init" << i;
+      D[i].hostile = hostile;
+      h << " init" << i << (hostile ? "(hostile-dict)" : "");
       ctx.describe(h.str());
     }
   };
@@ -305,6 +310,7 @@ Verdict propC09(Choices &c, Ctx &ctx) {
     }
     case 2: {
       int i = (int)c.range(0, 7);
+      if (x.hostile && c.coin(35)) i = 7;
       h << " align" << di << "(" << i << ")";
       ctx.describe(h.str());
       int rc = decoder_set_align_text(d, TEXTS[i]);
@@ -611,6 +617,7 @@ Verdict propC09(Choices &c, Ctx &ctx) {
       x.hasGrammar = rc >= 0 && gInitHasGrammar;
       x.utt = Dec::IDLE;
       x.french = rc >= 0 && french;
+      x.hostile = false;
       break;
     }
     case 22: {
